@@ -64,13 +64,15 @@ Proof. exact (fun Wp Ws L H => conj F_walkoff_0 (R_no_walkoff Wp Ws L H)). Qed.
 Theorem C08_R_integrand_range : forall Wp Ws L tanrho z1 z2, 0 < Wp -> 0 < Ws -> 0 < R_integrand Wp Ws L tanrho z1 z2 <= 1.
 Proof. exact R_integrand_range. Qed.
 
-(* partial: R in [0,1] given that the iterated Riemann integral exists (continuity of the inner integral in z1 not proved) *)
-Theorem C08_R_range_partial : forall Wp Ws L tanrho,
+(* R in (0,1]; the iterated Riemann integral exists (inner integral continuous in z1 by differentiation under the integral) *)
+Theorem C08_R_range : forall Wp Ws L tanrho,
   0 < Wp -> 0 < Ws ->
-  ex_RInt (fun z1 => RInt (fun z2 => R_integrand Wp Ws L tanrho z1 z2) (-1) 1) (-1) 1 ->
-  (forall z1, ex_RInt (fun z2 => R_integrand Wp Ws L tanrho z1 z2) (-1) 1) ->
-  0 <= R_walkoff Wp Ws L tanrho <= 1.
-Proof. exact R_walkoff_range_partial. Qed.
+  ex_RInt (fun z1 => RInt (fun z2 => R_integrand Wp Ws L tanrho z1 z2) (-1) 1) (-1) 1 /\
+  (forall z1, ex_RInt (fun z2 => R_integrand Wp Ws L tanrho z1 z2) (-1) 1) /\
+  0 < R_walkoff Wp Ws L tanrho <= 1.
+Proof.
+  exact (fun Wp Ws L t Hp Hs => conj (R_outer_ex Wp Ws L t Hp Hs) (conj (fun z1 => R_inner_ex Wp Ws L t z1 Hp Hs) (R_walkoff_range Wp Ws L t Hp Hs))).
+Qed.
 
 (* ---------- 4. conditional chain (partial: the pointwise hypothesis is validated by the oracle, not proved) *)
 Theorem C08_pointwise_partial : forall corr pts dw2 s sw,
@@ -119,6 +121,6 @@ Print Assumptions C08_overlap.
 Print Assumptions C08_F_range.
 Print Assumptions C08_no_walkoff.
 Print Assumptions C08_R_integrand_range.
-Print Assumptions C08_R_range_partial.
+Print Assumptions C08_R_range.
 Print Assumptions C08_pointwise_partial.
 Print Assumptions C08_ratio_structure.
